@@ -73,7 +73,7 @@ func c11r1(w *World, rr *RuleRun) {
 		return false, "implied_port undetermined on this path"
 	}
 	n := 0
-	eachInstr([]*ssa.Function{h.fn}, func(_ *ssa.Function, ins ssa.Instruction) {
+	eachInstr(w.RegionOf(h.fn), func(_ *ssa.Function, ins ssa.Instruction) {
 		c := callInstrCommon(ins)
 		if c == nil {
 			return
@@ -120,7 +120,7 @@ func c11r2(w *World, rr *RuleRun) {
 	for _, name := range []string{"AddPeer", "GetPeers"} {
 		m := peerStoreMethod(w, name)
 		n := 0
-		eachInstr([]*ssa.Function{h.fn}, func(_ *ssa.Function, ins ssa.Instruction) {
+		eachInstr(w.RegionOf(h.fn), func(_ *ssa.Function, ins ssa.Instruction) {
 			c := callInstrCommon(ins)
 			if c == nil || !c.IsInvoke() || c.Method != m {
 				return
@@ -361,7 +361,7 @@ func c11r6(w *World, rr *RuleRun) {
 	h := w.handler()
 	peerStore := w.P.Field("", "ServerConfig", "PeerStore")
 	n := 0
-	for _, site := range w.CallsIn(h.fn, h.reply, true) {
+	for _, site := range w.CallsInRegion(h.fn, h.reply) {
 		cases := h.casesAt(w, site)
 		isAnn := false
 		for _, c := range cases {
